@@ -627,15 +627,48 @@ def main():
                 msj = [{"kind": "expval", "obs": ["sum", [["P", l1, w], ["sprod", [1, 2], ["P", l2, w]]]]}]
             else:
                 msj = [{"kind": "expval", "obs": ["P", rng.choice("XY"), w]}, {"kind": "probs", "wires": [w]}]
+            kw = {}
+            if not forced and nw > 1 and rng.random() < 0.5:
+                # the clash hidden inside composite observables, the other wires measured consistently:
+                # [<l1(w) @ b(v)>, kind(c * l2(w))], [<l1(w)>, <l2(w) + b(v)>], [<b(v) @ l2(w)>, <l1(w)>] ...
+                v = rng.choice([x for x in range(nw) if x != w])
+                b = ["P", rng.choice("XYZ"), v]
+                A, Bq = ["P", l1, w], ["P", l2, w]
+                shape = rng.randrange(4)
+                if shape == 0:
+                    msj = [{"kind": "expval", "obs": ["prod", [A, b]]}, {"kind": rng.choice(["expval", "var"]), "obs": Bq}]
+                elif shape == 1:
+                    msj = [{"kind": "expval", "obs": A}, {"kind": "expval", "obs": ["sum", [Bq, ["sprod", list(rng.choice(COEFS)), b]]]}]
+                elif shape == 2:
+                    msj = [{"kind": "expval", "obs": ["prod", [b, Bq]]}, {"kind": "expval", "obs": b}, {"kind": "expval", "obs": ["sprod", list(rng.choice(COEFS)), A]}]
+                else:
+                    msj = [{"kind": "var", "obs": b}, {"kind": "expval", "obs": ["sum", [["prod", [A, b]], ["sprod", [1, 2], Bq]]]}]
+            if forced:
+                msj = forced["ms"]
+                sup = forced.get("supported")
+            else:
+                sup = rng.choice([None, None, ["X"], ["Y", "Z"], ["X", "Y"], ["Z", "X", "Y"]])
+            if sup is not None:
+                kw["supported_base_obs"] = [getattr(qp, s) for s in sup]
+                rec["supported"] = sup
             rec.update({"ops": [repr(o) for o in ops], "ms": msj})
             tape = qp.tape.QuantumScript(ops, [build_mp(m) for m in msj])
             try:
-                tapes, fn = qp.transforms.diagonalize_measurements(tape)
+                tapes, fn = qp.transforms.diagonalize_measurements(tape, **kw)
             except Exception as e:  # noqa
                 rec["status"] = "raised"
                 rec["exc"] = type(e).__name__
                 return rec
-            return finish(tape, tapes, fn)
+            # accepted although two different Pauli letters are requested on one wire: report what the returned tape computes
+            try:
+                finish(tape, tapes, fn)
+                rec["accepted_values"] = rec["status"]
+            except Exception as e:  # noqa
+                rec["accepted_values"] = f"execution raised {type(e).__name__}"
+            rec["new_measurements"] = [repr(m) for m in tapes[0].measurements][:6]
+            rec["added_gates"] = [repr(o) for o in tapes[0].operations[len(ops):]][:8]
+            rec["status"] = "accepted_noncommuting"
+            return rec
 
         if tname in ("diag", "diag_sub"):
             # a qubit-wise commuting measurement set: one Pauli letter per wire
